@@ -78,3 +78,12 @@ claimed["C18"] = (
  "exhaustive enumeration of scope trees x context kinds x consumer shapes on the real container; identity oracle on every recorded constructor argument",
  "All 27 context-kind combinations of a 3-deep scope chain x positional / In-struct consumers x 2 resolution orders: every recorded built-in argument of singleton / scoped / transient / initializer / group-member / nested constructors and every direct Get of Context, Scope, Provider is compared by identity with the issuing scope, its Context() and the root provider; context value inheritance, FromContext (direct and derived), cancellation propagation; 14 registration routes of the reserved types must fail without changing the collection.",
  "scope chains of depth 3", "DESIGN.md 6/C18")
+claimed["C14"] = (
+ "exhaustive history x fault-position enumeration on the real container under the controlled scheduler (thread table = goroutines), reflective reachability oracle; cycle repetition to a fixed point",
+ "Every history to depth 5/6 over create/nest/use/close on <=3 scopes sharing one never-cancelled caller context, with 0-3 scope initializers one of which fails at every position: at the end exactly one waiting goroutine per open scope, closed scopes have cancelled contexts and are unreachable (reflective traversal incl. unexported fields) from provider, open parent and the caller context, their instances are unreachable from the provider, failed creations left nothing unclosed. Five cycle shapes repeated 6 times: reachable-object counts and goroutine counts are constant from the second cycle on.",
+ "memory is measured as the number of objects reachable from the provider / the caller context, not in bytes; scheduler threads stand for goroutines",
+ "DESIGN.md 6/C14")
+claimed["C15"] = (
+ "exhaustive fault-position enumeration (every registration x invocation x fault kind) and exhaustive API-argument enumeration on the real container",
+ "6 dependency shapes x 5 lifetime patterns x every registration x invocation 1..3 x 6 fault kinds (error, nil, panic with string/error/struct/nil), each followed by retries, a second scope and Close: no panic escapes, the constructor's error is reachable by errors.As, panics surface as ConstructorPanicError carrying the value, retries succeed, lifetime / wiring / disposal oracles hold. ~1,000 API calls with nil / typed-nil / zero / unregistered / mismatched / invalid arguments never panic; Must* panic iff the plain call errs; 30 error-class routes through Build / resolution / registration / module wrappers are recognisable with errors.Is/As.",
+ "one fault per execution; hashable keys only", "DESIGN.md 6/C15")
